@@ -627,6 +627,7 @@ class MQTTProtocol(MQTTBaseProtocol):
         for _, request in self.factory.windowPublish[self.addr].items():
             if request.alarm is None:
                 self._retryPublish(request, dup=True)
+        self._refillPublish(dup=False)
 
     # --------------------------------------------------------------------------
 
